@@ -142,3 +142,17 @@ package tdx
 //@   loop 1 invariant forall(j, j < old(wrLen)[ref(m.digest)] ==> wrLog[ref(m.digest)][j] == old(wrLog)[ref(m.digest)][j])
 //@   loop 1 invariant forall(r, Int, r != ref(m.digest) ==> wrLen[r] == old(wrLen)[r] && wrLog[r] == old(wrLog)[r])
 //@   loop 1 decreases[C08] region.GPR.Length - i
+
+// C05 (the deprecated per-shape modes measure the hand-off block of the shape's RAM banks): the bank list of a shape
+// is the lower 3 GiB, the 2 MiB under 4 GiB, and one bank per NUMA node from 4 GiB upwards; the first node's bank holds
+// the node's share less the 3 GiB already placed below the hole - min(size, maxSizePerNode) GiB - 3 GiB - and is not
+// shortened again. (The shape table's constants are small positive numbers; the caller is a trusted contract.)
+//@ func regionsForShape
+//@   requires 3 <= shape.size && shape.size <= 65536 && 3 <= shape.maxSizePerNode && shape.maxSizePerNode <= 65536 && 0 <= shape.nodes && shape.nodes <= 65536
+//@   assigns nothing
+//@   appendframe
+//@   ensures[C05] len(result) == 2 + shape.nodes && result[0].Start == 0 && result[0].Length == 3221225472 && result[1].Start == 4292870144 && result[1].Length == 2097152
+//@   ensures[C05] shape.nodes >= 1 ==> result[2].Start == 4294967296 && result[2].Length == ite(shape.size < shape.maxSizePerNode, shape.size, shape.maxSizePerNode) * 1073741824 - 3221225472
+//@   loop 1 invariant[C05] 0 <= node && node <= shape.nodes && len(regions) == 2 + node && (ref(regions) == 0 || fresh(regions)) && regions[0].Start == 0 && regions[0].Length == 3221225472 && regions[1].Start == 4292870144 && regions[1].Length == 2097152
+//@   loop 1 invariant[C05] taken == ite(node == 0, 3221225472, 0) && MaxNodeSize == shape.maxSizePerNode * 1073741824 && (node == 0 ==> Start == 4294967296 && Size == shape.size * 1073741824 - 3221225472)
+//@   loop 1 invariant[C05] node >= 1 ==> regions[2].Start == 4294967296 && regions[2].Length == ite(shape.size < shape.maxSizePerNode, shape.size, shape.maxSizePerNode) * 1073741824 - 3221225472
